@@ -317,9 +317,10 @@ def _leaf_call(node):
             raise CannotTranslate("list comprehension shape")
         node = node.generators[0].iter
     c = _self_call(node)
-    if c is None or c[0] is None:
-        raise CannotTranslate(f"call {ast.dump(node)[:200]} is not self.<object>.<method>(...)")
+    if c is None:
+        raise CannotTranslate(f"call {ast.dump(node)[:200]} is not self.<object>.<method>(...) / self.<method>(...)")
     target, fn, call = c
+    target = target or "self"       # a helper of the runner itself, e.g. self._lookup_dsdl_files()
     if call.args:
         raise CannotTranslate(f"{target}.{fn}: positional arguments")
     kw = []
